@@ -117,7 +117,16 @@ Theorem C17_history : forall fx ops n k b, all_fixed fx -> forallb simple_rop op
   aget Z.eqb k (peer (nsys b)) = snd (spec_run n k ops).
 Proof. exact history. Qed.
 
-(* refuted on the tree without the fourth repair (what /repo is): a reload changes a session parameter
+(* a neighbor removed by a reload and configured again later - whatever happened before the removal
+   (files, API routes, parameter changes, sessions cycled or not) and whatever was tried while it was
+   absent: what its peer must hold is a function of the file that adds it again and of later operations only *)
+Theorem C17_readd_forgets : forall n k before cfg1 mid cfg2 c after,
+  aget Z.eqb n cfg1 = None -> forallb (absent n) mid = true -> aget Z.eqb n cfg2 = Some c ->
+  spec_run n k (before ++ Reload (Parsed cfg1) :: mid ++ Reload (Parsed cfg2) :: after) =
+  fold_left (spec_step n k) after (Some c, option_map rval (lastk k (nroutes c))).
+Proof. exact readd_forgets. Qed.
+
+(* refuted on the tree without the fourth repair (what /repo was before f0e3526): a reload changes a session parameter
    and removes prefix 2; the API announces prefix 2 before the session is back; at establishment it is
    withdrawn together with what the reload removed *)
 Theorem C17_history_refuted_without_eager :
@@ -220,3 +229,4 @@ Print Assumptions C17_peer_reaches_goal.
 Print Assumptions C17_reload_composes_refuted_without_chain.
 Print Assumptions C17_history.
 Print Assumptions C17_history_refuted_without_eager.
+Print Assumptions C17_readd_forgets.
